@@ -2,8 +2,9 @@
    semantics, composite glyphs).  Statements only; every proof is `exact <lemma>` and is followed by
    Print Assumptions.  Model: Model/GlyfOutline.v (after src/tables/glyf.rs, src/tables/glyf/outline.rs,
    constants from Gen/GlyfConsts.v); specification: Model/GlyfSpec.v. *)
-From AV Require Import Base.Prelude Gen.GlyfConsts Model.GlyfSpec Model.GlyfOutline
-     Proofs.GlyfContourProofs Proofs.GlyfDecodeProofs Proofs.GlyfCompositeProofs Proofs.GlyfGlyphProofs.
+From AV Require Import Base.Prelude Gen.GlyfConsts Gen.LocaConsts Model.GlyfSpec Model.GlyfOutline Model.GlyfLoca
+     Proofs.GlyfContourProofs Proofs.GlyfDecodeProofs Proofs.GlyfCompositeProofs Proofs.GlyfGlyphProofs
+     Proofs.GlyfLocaProofs.
 From Coq Require Import QArith.
 Open Scope Z_scope.
 
@@ -159,6 +160,60 @@ Theorem C16_fuel_irrelevant : forall cx t gid k,
 Proof. exact visit_fuel_irrelevant. Qed.
 Print Assumptions C16_fuel_irrelevant.
 
+(* ---- (d) "for every glyph in a glyf table": loca and the records of the table ------------------ *)
+(* Model: Model/GlyfLoca.v (after src/tables/loca.rs and GlyfTable::read_dep; the multiplier of the
+   short format is read from the source, Gen.LOCA_SHORT_MULT). *)
+
+(* EVERY list of offsets a format can express (short: even, at most 2 * 65535 = 131070; long: below
+   2^32) is read back exactly from the loca table the OpenType specification prescribes for it (short:
+   offset / 2 as uint16; long: offset as uint32), whatever follows: no offset wraps or is truncated. *)
+Theorem C16_loca_offsets_read_back : forall fmt offs rest,
+  offs <> [] -> forallb (offset_legal fmt) offs = true ->
+  loca_offsets fmt (len offs - 1) (encode_loca fmt offs ++ rest) = Ok offs.
+Proof. exact loca_offsets_encode. Qed.
+Print Assumptions C16_loca_offsets_read_back.
+
+(* EVERY legal layout — any number (>= 1) of glyph records of any sizes (empty, or at least the two
+   bytes of the contour count; padding counts as part of the record), stored one after the other
+   after any unused prefix and before any trailing bytes, in either loca format — is cut by
+   LocaTable::read_dep + GlyfTable::read_dep into exactly these records, in order. *)
+Theorem C16_glyf_table_records_are_layout : forall fmt pre gs post lrest,
+  layout_legal fmt pre gs = true ->
+  glyf_table fmt (len gs) (encode_loca fmt (offsets_of (len pre) gs) ++ lrest) (pre ++ concat gs ++ post) = Ok gs.
+Proof. exact glyf_table_layout. Qed.
+Print Assumptions C16_glyf_table_records_are_layout.
+
+(* Whatever the two tables hold: when they are accepted, visiting a glyph id is visiting the record
+   GlyfTable::read_dep made for it (so every theorem about `visit` on records speaks about the tables) *)
+Theorem C16_table_visit_is_record_visit : forall fmt n loca glyf gid t,
+  glyf_table fmt n loca glyf = Ok t -> visit_glyf fmt n loca glyf gid = visit t gid.
+Proof. exact visit_glyf_is_visit. Qed.
+Print Assumptions C16_table_visit_is_record_visit.
+
+(* ... hence for EVERY glyph id of EVERY legal layout the outline delivered through the bytes of both
+   tables is the outline of that glyph's own record *)
+Theorem C16_visit_every_glyph_of_table : forall fmt pre gs post lrest gid,
+  layout_legal fmt pre gs = true ->
+  visit_glyf fmt (len gs) (encode_loca fmt (offsets_of (len pre) gs) ++ lrest) (pre ++ concat gs ++ post) gid
+  = visit gs gid.
+Proof. exact visit_glyf_layout. Qed.
+Print Assumptions C16_visit_every_glyph_of_table.
+
+(* (a) + (b) + (d) end to end: a legally described simple glyph (up to 65536 points, last
+   endPtsOfContours up to 65535) followed by any padding, at ANY glyph id of ANY legal layout in either
+   loca format, is drawn as the specified paths of its contours. *)
+Theorem C16_visit_simple_glyph_in_table : forall fmt pre gl post lrest gid cs bbox instr chs gs pad,
+  layout_legal fmt pre gl = true ->
+  nth_opt gl gid = Some (simple_glyph_bytes cs bbox instr chs gs ++ pad) ->
+  simple_glyph_legal cs bbox instr chs gs = true ->
+  exists cmds paths,
+    visit_glyf fmt (len gl) (encode_loca fmt (offsets_of (len pre) gl) ++ lrest) (pre ++ concat gl ++ post) gid
+      = Ok cmds /\
+    cmds_eq cmds (map (map_cmd half) (concat paths)) /\
+    Forall2 spec_path_of cs paths.
+Proof. exact visit_simple_glyph_in_table. Qed.
+Print Assumptions C16_visit_simple_glyph_in_table.
+
 (* ---- non-vacuity and boundary witnesses ------------------------------------------------------- *)
 
 Definition P (on : bool) (x y : Z) : point := ((if on then 1 else 0), (x, y)).
@@ -243,3 +298,31 @@ Definition c_scaledoff : component :=
 Example ex_excluded_scaled_offset :
   supported c_scaledoff = false /\ x_apply (comp_xform c_scaledoff) (0, 0)%Q = (100, 0)%Q.   (* scaled: (50, 0) *)
 Proof. vm_compute. split; reflexivity. Qed.
+
+(* the short loca format: stored values are doubled without wrapping (65535 -> 131070) *)
+Example ex_short_loca_no_wrap :
+  loca_offsets LShort 2 [0; 0; 128; 0; 255; 255] = Ok [0; 65536; 131070] /\
+  offset_legal LShort 131070 = true /\ offset_legal LShort 131072 = false /\ offset_legal LShort 7 = false.
+Proof. vm_compute. repeat split; reflexivity. Qed.
+(* a legal short layout with an empty record in the middle; every glyph id gets its own record *)
+Example ex_layout_short :
+  layout_legal LShort [] [g_A; []; g_B; g_sq] = true /\
+  glyf_table LShort 4 (encode_loca LShort (offsets_of 0 [g_A; []; g_B; g_sq])) (g_A ++ g_B ++ g_sq)
+    = Ok [g_A; []; g_B; g_sq] /\
+  visit_glyf LShort 4 (encode_loca LShort (offsets_of 0 [g_A; []; g_B; g_sq])) (g_A ++ g_B ++ g_sq) 3 =
+  Ok [Move (0, 0)%Q; Line (100, 0)%Q; Line (100, 100)%Q; Line (0, 100)%Q; Close].
+Proof. vm_compute. repeat split; reflexivity. Qed.
+(* odd record lengths cannot be expressed in the short format (the layout is not legal), they can in the long one *)
+Example ex_layout_odd : layout_legal LShort [] [[0; 0; 0]] = false /\ layout_legal LLong [] [[0; 0; 0]] = true.
+Proof. vm_compute. split; reflexivity. Qed.
+(* damaged loca tables are rejected as coded: decreasing offsets, an offset beyond the table, no glyph *)
+Example ex_loca_damaged :
+  glyf_table LLong 2 (encode_loca LLong [0; 34; 20]) g_sq = Err BadOffset /\
+  glyf_table LLong 1 (encode_loca LLong [40; 44]) g_sq = Err BadOffset /\
+  glyf_table LLong 0 (encode_loca LLong [0]) g_sq = Err BadIndex /\
+  glyf_table LShort 1 [0; 0] g_sq = Err Eof.
+Proof. vm_compute. repeat split; reflexivity. Qed.
+(* the last legal point number: a contour that ends at point 65535 is delivered (65536 points) *)
+Example ex_last_point_number :
+  map len (contours 0 [65531; 65535] (repeat (P true 0 0) (Z.to_nat 65536))) = [65532; 4].
+Proof. vm_compute. reflexivity. Qed.
